@@ -64,7 +64,8 @@ static std::string state_key(const World &w) {
 static void setup(Runner &r, const Tier &t) {
     g_thor = t.thorough; g_roots.clear();
     struct FS { std::string f; std::vector<std::string> tx; };
-    std::vector<FS> fs = { { gen_dir() + "/s_min.ttf", { "ab", "ba", "c", "abc" } }, { gen_dir() + "/s_full.ttf", { "cd", "c\xCC\x81", "de f", "a\xCC\x81\xCC\x80" } }     /* "cd": the advance of c is changed by a contextual rule; "c" + mark: the same glyph with its own advance */, { font_path("small.ttf"), { "abc", "cab", "aa", "b" } }, { gen_dir() + "/s_full_pb.ttf", { "f", "fd", "af", "cd e" } }, { gen_dir() + "/s_twoclass.ttf", { "cb", "b", "a", "ca" } } };
+    std::vector<FS> fs = { { gen_dir() + "/s_min.ttf", { "ab", "ba", "c", "abc" } }, { gen_dir() + "/s_full.ttf", { "cd", "c\xCC\x81", "de f", "a\xCC\x81\xCC\x80" } }     /* "cd": the advance of c is changed by a contextual rule; "c" + mark: the same glyph with its own advance */, { font_path("small.ttf"), { "abc", "cab", "aa", "b" } }, { gen_dir() + "/s_full_pb.ttf", { "f", "fd", "af", "cd e" } }, { gen_dir() + "/s_twoclass.ttf", { "cb", "b", "a", "ca" } },
+        { gen_dir() + "/s_full_badglyph.ttf", { "e", "ae f", "de", "ea\xCC\x81" } }     /* glyph e is unreadable: demand-loading faces substitute glyph 0 for it, on EVERY lookup (preloading faces refuse the font: those roots are skipped) */ };
     if (t.thorough) fs.push_back({ font_path("Padauk.ttf"), { "\xE1\x80\x80\xE1\x80\xBB\xE1\x80\xBD\xE1\x80\x94\xE1\x80\xBA", "\xE1\x80\x99\xE1\x80\xBC\xE1\x80\x94\xE1\x80\xBA", "ab" } });
     for (auto &f : fs) for (unsigned o : { 0u, 2u, 4u, 6u }) for (int h = 0; h < 2; ++h) g_roots.push_back({ f.f, o, h == 1, f.tx });
     r.ncases = g_roots.size() * 2; r.case_alarm_s = unsigned(r.deadline_s) + 600;
@@ -140,7 +141,7 @@ static void extra_p(const Runner &r, JObj &o) { o.kv("states", (unsigned long lo
 static void extra(const Runner &r, JObj &o) { o.kv("states", (unsigned long long)r.counters[0]).kv("transitions", (unsigned long long)r.counters[1]).kv("validated", (unsigned long long)r.counters[0]).kv("bfs_roots_reaching_fixpoint", (unsigned long long)r.counters[2]); }
 int main(int argc, char **argv) {
     std::vector<Sub> subs;
-    { Sub s; s.name = "history_search"; s.setup = setup; s.budget_quick = 140; s.budget_thorough = 1100; s.counter_names = { "states_probed", "operations_replayed", "bfs_roots_reaching_fixpoint" }; s.extra = extra; subs.push_back(s); }
-    { Sub s; s.name = "text_pair_histories"; s.setup = setup_pairs; s.budget_quick = 100; s.budget_thorough = 600; s.counter_names = { "history_probe_pairs", "operations" }; s.extra = extra_p; subs.push_back(s); }
+    { Sub s; s.name = "history_search"; s.setup = setup; s.budget_quick = 300; s.budget_thorough = 1100; s.counter_names = { "states_probed", "operations_replayed", "bfs_roots_reaching_fixpoint" }; s.extra = extra; subs.push_back(s); }
+    { Sub s; s.name = "text_pair_histories"; s.setup = setup_pairs; s.budget_quick = 200; s.budget_thorough = 600; s.counter_names = { "history_probe_pairs", "operations" }; s.extra = extra_p; subs.push_back(s); }
     return check_main(argc, argv, "C08", subs);
 }
